@@ -69,10 +69,11 @@ theorem J_bitLogp (c : Dec) (hj : J c) (logp : Nat) (h1 : 1 ≤ logp) (h2 : logp
 
 /-! ### ec_dec_icdf -/
 
-/-- `r * x` stays below the running `t` along the table: what a strictly decreasing ICDF guarantees. -/
+/-- `r * x` stays below the running `t` along the table, up to the first `0` entry (where the scan stops): what an
+    ICDF that is strictly decreasing down to its terminating zero guarantees. -/
 def Chain (r : Nat) : Nat → List Nat → Prop
   | _, [] => True
-  | t, x :: xs => r * x < t ∧ Chain r (r * x) xs
+  | t, x :: xs => r * x < t ∧ (x = 0 ∨ Chain r (r * x) xs)
 
 theorem decIcdfLoop_inv (r d : Nat) : ∀ (xs : List Nat) (t k : Nat), 0 < t → t ≤ 4294967296 → Chain r t xs →
     (decIcdfLoop r d xs t k).2.2 < (decIcdfLoop r d xs t k).2.1 ∧ (decIcdfLoop r d xs t k).2.1 ≤ t
@@ -84,8 +85,10 @@ theorem decIcdfLoop_inv (r d : Nat) : ∀ (xs : List Nat) (t k : Nat), 0 < t →
     dsimp only
     split
     · rename_i hd
-      have := decIcdfLoop_inv r d xs (r * x) (k + 1) (by omega) (by have := hc.1; omega) hc.2
-      exact ⟨this.1, by have := hc.1; omega⟩
+      rcases hc.2 with hz | hch
+      · subst hz; simp at hd
+      · have := decIcdfLoop_inv r d xs (r * x) (k + 1) (by omega) (by have := hc.1; omega) hch
+        exact ⟨this.1, by have := hc.1; omega⟩
     · exact ⟨hc.1, Nat.le_refl _⟩
 
 /-- Strictly decreasing list. -/
@@ -95,7 +98,7 @@ def Decr : List Nat → Prop
 
 theorem chain_of_decr (r : Nat) (hr : 1 ≤ r) : ∀ (xs : List Nat) (x0 : Nat), Decr (x0 :: xs) → Chain r (r * x0) xs
   | [], _, _ => trivial
-  | x :: xs, x0, h => ⟨Nat.mul_lt_mul_of_pos_left h.1 (by omega), chain_of_decr r hr xs x h.2⟩
+  | x :: xs, x0, h => ⟨Nat.mul_lt_mul_of_pos_left h.1 (by omega), Or.inr (chain_of_decr r hr xs x h.2)⟩
 
 /-- A table usable with `ftb` bits: non-empty, first entry below `2^ftb`, strictly decreasing. -/
 def TblOk (ftb : Nat) (tbl : List Nat) : Prop :=
@@ -120,7 +123,22 @@ theorem J_icdf (c : Dec) (hj : J c) (tbl : List Nat) (ftb : Nat) (hf : ftb ≤ 8
         have hc : c.rng / 2 ^ ftb * (x0 + 1) = c.rng / 2 ^ ftb * x0 + c.rng / 2 ^ ftb := by
           rw [Nat.mul_add, Nat.mul_one]
         omega
-      exact ⟨h1, chain_of_decr _ hr xs x0 ht.2⟩
+      exact ⟨h1, Or.inr (chain_of_decr _ hr xs x0 ht.2)⟩
+  have hinv := decIcdfLoop_inv (c.rng / 2 ^ ftb) c.val tbl c.rng 0 (by omega) (by omega) hchain
+  unfold decIcdf
+  dsimp only
+  generalize decIcdfLoop (c.rng / 2 ^ ftb) c.val tbl c.rng 0 = y at hinv
+  obtain ⟨ret, t, s⟩ := y
+  dsimp only at hinv ⊢
+  apply J_norm
+  · dsimp only; exact sub32_lt _ _
+  · dsimp only; rw [sub32_of_le (by omega) (by omega)]; omega
+  · dsimp only; rw [sub32_of_le (by omega) (by omega)]; omega
+
+/-- `ec_dec_icdf` preserves `J` whenever the table keeps `r·icdf[k]` strictly below the running bound until the scan stops. -/
+theorem J_icdf_chain (c : Dec) (hj : J c) (tbl : List Nat) (ftb : Nat)
+    (hchain : Chain (c.rng / 2 ^ ftb) c.rng tbl) : J (decIcdf c tbl ftb).2 := by
+  obtain ⟨hv, hr0, hr1⟩ := hj
   have hinv := decIcdfLoop_inv (c.rng / 2 ^ ftb) c.val tbl c.rng 0 (by omega) (by omega) hchain
   unfold decIcdf
   dsimp only
